@@ -352,4 +352,74 @@ def closerRuns : Nat → Node → Node
   | 0, n => n
   | k + 1, n => closerRuns k (closer n).1
 
+/-! ### The acknowledgement `handle_rx_packet` puts on the wire for a duplicate (round H1)
+
+A side function of `arrive` (same case analysis, `arrive` itself and the lemmas about it are untouched):
+which standalone acknowledgement the `Duplicate` arm of `handle_rx_packet` sends. The other datagrams the
+arms may send (`Busy`, `CloseSession`, `SessionNotFound`) are not modelled. -/
+
+/-- the header fields of an outgoing datagram that the PEER's receive path looks at -/
+structure Wire where
+  /-- destination: `packet.peer` -/
+  port : Nat
+  /-- `plain.sess_id` written by `write_packet`: the peer session id of the session -/
+  sid : Nat
+  exch : Nat
+  initiator : Bool
+  ack : Option Nat
+  kind : Kind
+deriving Repr, DecidableEq, Inhabited
+
+/-- the `Duplicate` arm of `handle_rx_packet`, transliterated: the received header is reused —
+`packet.header.proto.toggle_initiator()`, `set_ack(Some(packet.header.plain.ctr))`, opcode
+`MRPStandAloneAck`, sent to `packet.peer` on the session `get_for_rx` finds. Nothing is looked up in the
+exchange table: the exchange may be long gone. -/
+def dupAck (s : Sess) (m : Msg) : Wire :=
+  { port := m.port, sid := s.peerSid, exch := m.exch, initiator := !m.initiator, ack := some m.ctr, kind := .sack }
+
+/-- the standalone ack `finishArrive` sends: only in the `Duplicate` arm, and not for a duplicate that is
+itself a standalone ack (the peer address is UDP: `!packet.peer.is_reliable()`) -/
+def finishArriveAck (n : Node) (s : Sess) (m : Msg) : Option Wire :=
+  match (s.postRecv m.hdr n.now).2 with
+  | .error .duplicate => if m.kind = .sack then none else some (dupAck s m)
+  | _ => none
+
+/-- the standalone ack one `arrive` step sends (same case analysis as `arrive`) -/
+def arriveAck (n : Node) (m : Msg) (rnd : Nat) : Option Wire :=
+  match n.rx with
+  | some _ => none
+  | none =>
+    let g := n.t.getForRx m.port m.sid n.now
+    match g.2 with
+    | some s => finishArriveAck n s m
+    | none =>
+      if m.sid = 0 ∧ m.kind = .newSess then
+        let a := addSess g.1 rnd false n.now m.port
+        match a.2 with
+        | .ok uid =>
+          match a.1.sess uid with
+          | some s => finishArriveAck n s m
+          | none => none
+        | .error _ => none
+      else none
+
+/-- the header of an outgoing datagram as the peer's session layer sees it -/
+def Wire.hdr (w : Wire) : RxHdr :=
+  { ctr := 0, exch := w.exch, initiator := w.initiator, ack := w.ack, reliable := false, newOk := w.kind.newOk }
+
+/-- SPECIFICATION (property text: "duplicates of already-received messages are acknowledged", with the
+protocol rule that an acknowledgement travels on the SAME exchange in the direction OPPOSITE to the message
+it acknowledges): the exchange on which the peer sent `m` — it has `m`'s exchange id, and the peer is its
+initiator exactly when `m` carries the initiator flag. Written from the message alone; what our own
+exchange table contains (the exchange may be closed) plays no role. -/
+def peerExch (m : Msg) : Exch := { id := m.exch, role := if m.initiator then .io else .ro }
+
+/-- SPECIFICATION: `w` acknowledges `m` in a way the peer can use: it goes back to the sender, it is a
+standalone ack, it acknowledges `m`'s counter, and the peer's exchange that sent `m` matches it
+(`ExchangeState::is_for_rx` on the peer: same exchange id, complementary initiator flag). -/
+def AckMatchesPeer (m : Msg) (w : Wire) : Prop :=
+  w.port = m.port ∧ w.kind = .sack ∧ w.ack = some m.ctr ∧ (peerExch m).isForRx w.hdr = true
+
+instance (m : Msg) (w : Wire) : Decidable (AckMatchesPeer m w) := by unfold AckMatchesPeer; infer_instance
+
 end RxPath
